@@ -448,6 +448,16 @@ fn c08_ops(g: &mut Gen, thorough: bool) {
             if null {
                 def += ",@null";
             }
+            // the null grid elsewhere than last (the code ignores what follows it; the statement is silent, so
+            // this goes to the model only)
+            let def_mid = if k >= 2 {
+                let at = g.rng.below(k);
+                let mut n2 = names.clone();
+                n2.insert(at, "@null".to_string());
+                Some(def.replace(&format!("grids={}", names.join(",")), &format!("grids={}", n2.join(","))).replace(",@null,@null", ",@null"))
+            } else {
+                None
+            };
             let data: Vec<[f64; 4]> = q
                 .iter()
                 .map(|p| match kind {
@@ -457,6 +467,9 @@ fn c08_ops(g: &mut Gen, thorough: bool) {
                 })
                 .collect();
             g.push(super::opg_line(&grids, &def, "apply", "F", &crate::wire::data_of(&data)), &format!("model-oplist-{kind}"), true);
+            if let Some(dm) = &def_mid {
+                g.push(super::opg_line(&grids, dm, "apply", "F", &crate::wire::data_of(&data)), &format!("model-oplist-{kind}-null-inside"), true);
+            }
             if kind != "deflection" {
                 g.push(super::opg_line(&grids, &def, "apply", "I", &crate::wire::data_of(&data)), &format!("model-oplist-{kind}-inv"), true);
             }
